@@ -94,11 +94,12 @@ def main():
     os.remove(tmpdemo)
     print("%s: demo clean rc=%s, patched rc=%s; tests: new failures=%s (%s); fired=%s errors=%s" % (
         name, rc_clean, rc_pat, newfail, testtail, sorted(fired), sorted(errors)))
-    confirmed = rc_clean == 0 and rc_pat != 0 and not newfail
+    refactor = "--refactor" in sys.argv
+    confirmed = rc_clean == 0 and not newfail and ((rc_pat == 0) if refactor else (rc_pat != 0))
     if not confirmed:
         print("NOT CONFIRMED\n--- clean:\n%s\n--- patched:\n%s" % (out_clean, out_pat))
         return 1
-    dst = os.path.join(VERIF, "seeded", name)
+    dst = os.path.join(VERIF, "refactors" if refactor else "seeded", name)
     os.makedirs(dst, exist_ok=True)
     open(os.path.join(dst, "patch.diff"), "w").write(applied)
     if os.path.abspath(demo) != os.path.abspath(os.path.join(dst, "demo.py")):
@@ -117,6 +118,10 @@ def main():
                                "how": "scratch worktree of /repo HEAD; PYTHONPATH=<wt>/src /venv/bin/python demo.py"},
                  "checks_fired": fired, "checks_analysis_error": errors,
                  "detected": bool(fired)})
+    if refactor:
+        meta["kind"] = "refactor"
+        meta["silent"] = not fired and not errors
+        del meta["detected"]
     json.dump(meta, open(os.path.join(dst, "meta.json"), "w"), indent=1)
     return 0
 
